@@ -2,7 +2,9 @@
 """Generate /verif/MANIFEST.json from checks.json (single source of truth) and validate it."""
 import json, os, subprocess, sys
 VERIF = os.path.dirname(os.path.dirname(os.path.abspath(__file__)))
-reg = json.load(open(os.path.join(VERIF, "checks.json")))
+sys.path.insert(0, os.path.join(VERIF, "lib"))
+import driver
+reg = driver.registry()
 props = [json.loads(l) for l in open(os.path.join(VERIF, "properties.jsonl"))]
 ids = [p["id"] for p in props]
 hooks_commits = []
